@@ -121,12 +121,20 @@ FormatOk(s) == \A i \in 1..Len(Items(s)) : Items(s)[i].k # "bad"
 \* ---- formatting (whole seconds: the fraction of the second is zero)
 Hour12(h) == IF h % 12 = 0 THEN 12 ELSE h % 12
 RECURSIVE FormatItems(_, _, _, _)
-\* secs: the text of the whole number of seconds since the epoch (%s) - it is not a 32-bit number, the caller holds it as digits
-One(z, sod, it, secs) ==
+\* x: what the items print that the day and the second of the day do not determine -
+\*    x.secs  the text of the whole number of seconds since the epoch (%s; it is not a 32-bit number, the caller holds it as digits)
+\*    x.zn    the offset from UTC, [neg, h, m] (%z and its variants; format_time is always given UTC)
+\*    x.fr    the nine digits of the fraction of the second (code points; all zeros for a whole second)
+Utc == [neg |-> FALSE, h |-> 0, m |-> 0]
+NoFr == <<48, 48, 48, 48, 48, 48, 48, 48, 48>>
+X0 == [secs |-> <<>>, zn |-> Utc, fr |-> NoFr]
+One(z, sod, it, x) ==
   LET c == Civil(z)
       h == sod \div 3600  mi == (sod % 3600) \div 60  sec == sod % 60
       P(n, w, dflt) == Numeric(n, w, IF it.pad = -1 THEN dflt ELSE it.pad)
-      Sub(t) == FormatItems(z, sod, Items(t), secs)
+      Sub(t) == FormatItems(z, sod, Items(t), x)
+      sg == IF x.zn.neg THEN 45 ELSE 43
+      HH == Numeric(x.zn.h, 2, 48)  MM == Numeric(x.zn.m, 2, 48)
       s == it.s
   IN
   IF it.k = "lit" THEN <<it.c>>
@@ -163,32 +171,38 @@ One(z, sod, it, secs) ==
     [] s \in {84, 88} -> Sub(<<37,72,58,37,77,58,37,83>>)
     [] s = 114 -> Sub(<<37,73,58,37,77,58,37,83,32,37,112>>)
     [] s = 113 -> NatText((c.m - 1) \div 3 + 1)
-    [] s = 115 -> secs
-    [] s = 122 -> CASE it.colons = 0 -> <<43,48,48,48,48>> [] it.colons = 1 -> <<43,48,48,58,48,48>>
-                    [] it.colons = 2 -> <<43,48,48,58,48,48,58,48,48>> [] OTHER -> <<43,48,48>>
+    [] s = 115 -> x.secs
+    [] s = 122 -> CASE it.colons = 0 -> <<sg>> \o HH \o MM [] it.colons = 1 -> <<sg>> \o HH \o <<58>> \o MM
+                    [] it.colons = 2 -> <<sg>> \o HH \o <<58>> \o MM \o <<58, 48, 48>> [] OTHER -> <<sg>> \o HH
     [] s = 99 -> Sub(<<37,97,32,37,98,32,37,101,32,37,84,32,37,89>>)               \* %a %b %e %T %Y
     [] s = 43 -> Sub(<<37,89,45,37,109,45,37,100,84,37,72,58,37,77,58,37,83,37,58,122>>)
     [] s = 116 -> <<9>>
     [] s = 110 -> <<10>>
     [] s = 37 -> <<37>>
-    \* the fraction of a whole second: %.f prints nothing, the fixed widths print zeros
-    [] s = 102 -> IF it.w = 0 THEN <<>> ELSE (IF it.dot THEN <<46>> ELSE <<>>) \o Rep(48, it.w)
+    \* the fraction of the second: the fixed widths print that many digits; %.f prints nothing for a whole second (otherwise 3, 6 or 9 digits:
+    \* only the whole second is given a meaning here)
+    [] s = 102 -> IF it.w = 0 THEN <<>> ELSE (IF it.dot THEN <<46>> ELSE <<>>) \o SubSeq(x.fr, 1, it.w)
     [] OTHER -> <<>>
-FormatItems(z, sod, its, secs) == IF its = <<>> THEN <<>> ELSE One(z, sod, its[1], secs) \o FormatItems(z, sod, Tail(its), secs)
+FormatItems(z, sod, its, x) == IF its = <<>> THEN <<>> ELSE One(z, sod, its[1], x) \o FormatItems(z, sod, Tail(its), x)
 
-FormatS(z, sod, fmt, secs) == FormatItems(z, sod, Items(fmt), secs)
-Format(z, sod, fmt) == FormatS(z, sod, fmt, <<>>)
+FormatX(z, sod, fmt, x) == FormatItems(z, sod, Items(fmt), x)
+FormatS(z, sod, fmt, secs) == FormatX(z, sod, fmt, [X0 EXCEPT !.secs = secs])
+Format(z, sod, fmt) == FormatX(z, sod, fmt, X0)
 
 \* ---- parsing, for formats of fixed-width numeric fields and literals: read the fields, build the time, and accept it exactly when formatting
 \*      it gives the text back (so every tolerance of a real parser is outside this meaning)
 FieldWidth(it) == IF it.k = "lit" THEN 1
-                  ELSE CASE it.s = 89 -> 4 [] it.s \in {109, 100, 101, 72, 77, 83, 121} -> 2 [] it.s = 106 -> 3 [] it.s \in {98, 104} -> 3 [] OTHER -> 0
-Plain(it) == it.k = "lit" \/ (it.k = "spec" /\ it.pad = -1 /\ it.s \in {89, 109, 100, 101, 72, 77, 83, 106, 98, 104})
+                  ELSE CASE it.s = 89 -> 4 [] it.s \in {109, 100, 101, 72, 77, 83, 121} -> 2 [] it.s = 106 -> 3 [] it.s \in {98, 104} -> 3
+                         [] it.s = 122 -> (IF it.colons = 0 THEN 5 ELSE 6) [] it.s = 102 -> it.w + (IF it.dot THEN 1 ELSE 0) [] OTHER -> 0
+Plain(it) == \/ it.k = "lit"
+             \/ (it.k = "spec" /\ it.pad = -1 /\ it.s \in {89, 109, 100, 101, 72, 77, 83, 106, 98, 104})
+             \/ (it.k = "spec" /\ it.s = 122 /\ it.colons \in {0, 1})             \* %z +hhmm, %:z +hh:mm
+             \/ (it.k = "spec" /\ it.s = 102 /\ it.w \in {3, 6})                   \* %.3f %3f %.6f %6f (parse_time keeps microseconds)
 RECURSIVE NumOf(_, _, _)
 NumOf(t, a, b) == IF b < a THEN 0 ELSE NumOf(t, a, b - 1) * 10 + (IF t[b] \in 48..57 THEN t[b] - 48 ELSE 0)
 MonthOf(t3) == IF \E m \in 1..12 : Abbr(MonNames[m]) = t3 THEN CHOOSE m \in 1..12 : Abbr(MonNames[m]) = t3 ELSE 0
 RECURSIVE Fields(_, _, _, _)
-\* acc: [y, m, d, j, h, mi, s] with -1 for "not given"
+\* acc: [y, m, d, j, h, mi, s] with -1 for "not given", zn the offset ([neg, h, m]; zoned: one was given), fr the digits of the fraction
 Fields(t, p, its, acc) ==
   IF its = <<>> THEN [acc EXCEPT !.endp = p]
   ELSE LET it == its[1] w == FieldWidth(it) IN
@@ -198,20 +212,28 @@ Fields(t, p, its, acc) ==
                         ELSE CASE it.s = 89 -> [acc EXCEPT !.y = n] [] it.s = 109 -> [acc EXCEPT !.m = n] [] it.s \in {100, 101} -> [acc EXCEPT !.d = n]
                                [] it.s = 106 -> [acc EXCEPT !.j = n] [] it.s = 72 -> [acc EXCEPT !.h = n] [] it.s = 77 -> [acc EXCEPT !.mi = n]
                                [] it.s = 83 -> [acc EXCEPT !.s = n] [] it.s \in {98, 104} -> [acc EXCEPT !.m = MonthOf(SubSeq(t, p, p + 2))]
+                               [] it.s = 122 -> [acc EXCEPT !.zoned = TRUE,
+                                                             !.zn = [neg |-> t[p] = 45, h |-> NumOf(t, p + 1, p + 2), m |-> NumOf(t, p + w - 2, p + w - 1)]]
+                               [] it.s = 102 -> LET a == p + (IF it.dot THEN 1 ELSE 0) IN
+                                                [acc EXCEPT !.fr = [k \in 1..9 |-> IF k <= it.w /\ t[a + k - 1] \in 48..57 THEN t[a + k - 1] ELSE 48], !.frw = it.w]
                                [] OTHER -> acc
             IN Fields(t, p + w, Tail(its), acc2)
-NoFields == [y |-> -1, m |-> -1, d |-> -1, j |-> -1, h |-> -1, mi |-> -1, s |-> -1, endp |-> 0]
-\* [ok, z, sod]: ok only for a text that is exactly the formatting of the time its fields name, under a format that names a date and a time of day
+NoFields == [y |-> -1, m |-> -1, d |-> -1, j |-> -1, h |-> -1, mi |-> -1, s |-> -1, endp |-> 0, zoned |-> FALSE, zn |-> Utc, fr |-> NoFr, frw |-> 0]
+NoParse == [ok |-> FALSE, z |-> 0, sod |-> 0, zoned |-> FALSE, zn |-> Utc, fr |-> NoFr, frw |-> 0]
+\* [ok, z, sod, zoned, zn, fr, frw]: ok only for a text that is exactly the formatting of the (local) time its fields name - with the offset and the
+\* fraction it spells - under a format that names a date and a time of day; z / sod are the local day and second, zn the offset the text gives
 Parse(t, fmt) ==
   LET its == Items(fmt) IN
   \* a blank-padded day directly in front of another digit has no unique reading ("%e%H" on " 611": day 6 hour 11, or day 61?): no meaning here
   IF ~(\A i \in 1..Len(its) : Plain(its[i]) /\ (its[i].k = "spec" /\ its[i].s = 101 /\ i < Len(its) => its[i + 1].k = "lit" /\ its[i + 1].c \notin 48..57))
-  THEN [ok |-> FALSE, z |-> 0, sod |-> 0]
+  THEN NoParse
   ELSE LET f == Fields(t, 1, its, NoFields)
            dated == f.y \in 1..9999 /\ ((f.m \in 1..12 /\ f.d >= 1 /\ f.d <= DaysInMonth(f.y, f.m)) \/ (f.m = -1 /\ f.d = -1 /\ f.j >= 1 /\ f.j <= DaysInYear(f.y)))
            timed == f.h \in 0..23 /\ f.mi \in 0..59 /\ f.s \in 0..59
-       IN IF f.endp # Len(t) + 1 \/ ~dated \/ ~timed THEN [ok |-> FALSE, z |-> 0, sod |-> 0]
+           zoneOk == f.zn.h <= 14 /\ f.zn.m <= 59
+       IN IF f.endp # Len(t) + 1 \/ ~dated \/ ~timed \/ ~zoneOk THEN NoParse
           ELSE LET z == IF f.m # -1 THEN DayNo(f.y, f.m, f.d) ELSE DayNo(f.y, 1, 1) + f.j - 1
                    sod == f.h * 3600 + f.mi * 60 + f.s
-               IN IF Format(z, sod, fmt) = t THEN [ok |-> TRUE, z |-> z, sod |-> sod] ELSE [ok |-> FALSE, z |-> 0, sod |-> 0]
+               IN IF FormatX(z, sod, fmt, [secs |-> <<>>, zn |-> f.zn, fr |-> f.fr]) = t
+                  THEN [ok |-> TRUE, z |-> z, sod |-> sod, zoned |-> f.zoned, zn |-> f.zn, fr |-> f.fr, frw |-> f.frw] ELSE NoParse
 =============================================================================
